@@ -5,6 +5,7 @@
 #   the demonstration fails with the patch and passes without it.
 # Then stores it under /verif/seeded/<ID>-<n>/ and removes the scratch worktree.
 set -u
+REBASED=
 ID=$1; N=$2; SRC=$3
 WT=/tmp/sv_${ID}_${N}
 OUT=/verif/seeded/${ID}-${N}
@@ -15,7 +16,15 @@ git -C /repo worktree remove --force $WT >/dev/null 2>&1
 git -C /repo worktree add -q --detach $WT HEAD || exit 2
 cleanup() { git -C /repo worktree remove --force $WT >/dev/null 2>&1; rm -rf $WT; }
 cd $WT
-if ! git apply $SRC/patch.diff 2>>$LOG; then echo "RESULT $ID-$N patch does not apply to current HEAD"; cleanup; exit 3; fi
+if ! git apply $SRC/patch.diff 2>>$LOG; then
+  # the tree moved on since the sub-agent's worktree was cut: try a 3-way merge
+  if git apply -3 $SRC/patch.diff 2>>$LOG && ! git diff --name-only --diff-filter=U | grep -q .; then
+    git reset -q; echo "patch applied with 3-way merge; refreshed patch.diff is stored" | tee -a $LOG
+    git diff > /tmp/sv_${ID}_${N}.rebased.diff; REBASED=/tmp/sv_${ID}_${N}.rebased.diff
+  else
+    echo "RESULT $ID-$N patch does not apply to current HEAD"; cleanup; exit 3
+  fi
+fi
 export CARGO_TARGET_DIR=/tmp/sv_target
 cargo test --workspace --offline --no-fail-fast >>$LOG 2>&1
 PASSED=$(grep -E "^test .* \.\.\. ok$" $LOG | grep -v " - " | sort -u | wc -l)
@@ -30,7 +39,7 @@ OKSET="test_pub_sub concurrent_requests_are_routed_successfully fails_to_bind_mu
 BAD=""
 for f in $FAILED; do case " $OKSET " in *" ${f##*::} "*) ;; *) BAD="$BAD $f";; esac; done
 if [ "$PASSED" -ge 50 ] && [ -z "$BAD" ] && [ $RC_BROKEN -ne 0 ] && [ $RC_CLEAN -eq 0 ]; then
-  mkdir -p $OUT && rm -rf $OUT/demo && cp $SRC/patch.diff $OUT/ && cp -r $SRC/demo $OUT/demo && cp $SRC/README.md $OUT/AGENT_README.md 2>/dev/null
+  mkdir -p $OUT && rm -rf $OUT/demo && cp ${REBASED:-$SRC/patch.diff} $OUT/patch.diff && cp -r $SRC/demo $OUT/demo && cp $SRC/README.md $OUT/AGENT_README.md 2>/dev/null
   rm -rf $OUT/demo/target $OUT/demo/.build
   echo "RESULT $ID-$N CONFIRMED (tests ok=$PASSED, demo $RC_BROKEN/$RC_CLEAN) -> $OUT"
 else
